@@ -28,6 +28,36 @@ class FArr(_np.ndarray):
         _np.ndarray.__setitem__(self, idx, val)
 
 
+class IArr(_np.ndarray):
+    """object array standing for an int64 array (e.g. zeros_like of an integer container):
+    storing a real truncates toward zero, as the C cast does"""
+
+    def __setitem__(self, idx, val):
+        from .proxy import sym_int
+        if isinstance(val, (list, tuple)) or (isinstance(val, _np.ndarray) and val.ndim > 0):
+            tgt = _np.ndarray.__getitem__(self, idx)
+            if not isinstance(tgt, _np.ndarray):
+                raise ValueError('setting an array element with a sequence.')
+            _np.ndarray.__setitem__(self, idx, val)
+            return
+        _np.ndarray.__setitem__(self, idx, sym_int(val))
+
+
+def _int_typed(a):
+    if isinstance(a, _np.ndarray) and a.dtype != object:
+        return _np.issubdtype(a.dtype, _np.integer)
+    vals = list(_obj(a).ravel())
+    if not vals:
+        return False
+    for v in vals:
+        if isinstance(v, Sym):
+            if v.e.sort != 'I':
+                return False
+        elif isinstance(v, (bool, _np.bool_)) or not isinstance(v, (int, _np.integer)):
+            return False
+    return True
+
+
 def _falloc(shape, fill):
     a = _np.empty(shape, dtype=object).view(FArr)
     a.fill(fill)
@@ -54,11 +84,21 @@ class _Shim:
     def empty(self, shape, dtype=float, **kw):
         return self.zeros(shape, dtype=dtype, **kw)
 
+    def _like(self, a, dtype, fill):
+        shape = _np.shape(_obj(a) if has_sym(a) else a)
+        if dtype is None and _int_typed(a):
+            r = _np.empty(shape, dtype=object).view(IArr)
+            r.fill(int(fill))
+            return r
+        if dtype is not None and dtype not in (float, _np.double, _np.float64):
+            return _np.full(shape, fill, dtype=dtype)
+        return _falloc(shape, float(fill))
+
     def zeros_like(self, a, dtype=None, **kw):
-        return self.zeros(_np.shape(_obj(a) if has_sym(a) else a))
+        return self._like(a, dtype, 0)
 
     def ones_like(self, a, dtype=None, **kw):
-        return self.ones(_np.shape(_obj(a) if has_sym(a) else a))
+        return self._like(a, dtype, 1)
 
     def full_like(self, a, fill_value, dtype=None, **kw):
         r = _np.empty(_np.shape(_obj(a) if has_sym(a) else a), dtype=object)
